@@ -20,7 +20,12 @@ BIG = 16_384_001
 A_SIZES = [40000, 140000]   # 3 / 9 pieces at 16 KiB, 2 / 5 at 32 KiB
 
 FS_OPS = ["add:n", "del:n", "del:b", "grow:a", "shrink:a", "rewrite:b",
-          "biggrow:a", "resize:solo"]
+          "biggrow:a", "resize:solo",
+          # environment actions that make a walk of the content root FAIL below
+          # its top level (a dangling symbolic link in top/d) / undo that, and
+          # one that turns the single-file root into a directory and back
+          "add:link", "del:link", "morph:solo"]
+WIDE_FS_OPS = ("add:link", "del:link", "morph:solo")
 LIB_OPS = ["create:1", "create:2", "create:3", "create:auto", "create:cliq",
            "create:1:solo", "create:2:solo", "create:3:solo",
            "create:2:p32", "create:3:p32",
@@ -41,11 +46,17 @@ class FakeDatetime:
 
 def initial_model():
     return {"a": ("size", 0), "b": 0, "n": False, "b_present": True,
-            "solo": 0}
+            "solo": 0, "link": False, "solo_dir": False}
 
 
-def fs_enabled(m):
+def fs_enabled(m, wide=False):
+    """The filesystem actions enabled in model state m.  The BFS of the quick
+    tier uses the narrow alphabet; the link / morph actions are members of the
+    pattern histories and of the thorough tier's `wide` groups."""
     ops = ["resize:solo"]
+    if wide:
+        ops.append("del:link" if m.get("link") else "add:link")
+        ops.append("morph:solo")
     ops.append("add:n" if not m["n"] else "del:n")
     if m["b_present"]:
         ops += ["del:b", "rewrite:b"]
@@ -76,7 +87,20 @@ def fs_apply_model(m, op):
         m["a"] = ("big", 0)
     elif op == "resize:solo":
         m["solo"] = 1 - m.get("solo", 0)
+    elif op == "add:link":
+        m["link"] = True
+    elif op == "del:link":
+        m["link"] = False
+    elif op == "morph:solo":
+        m["solo_dir"] = not m.get("solo_dir", False)
     return m
+
+
+# a second directory root, never mutated; its entries are created in an order
+# that is neither the sorted one nor its reverse, so that the native listing
+# order is unsorted whichever way the scratch filesystem enumerates
+OTHER_FILES = [("m", 40, 100), ("k", 41, P0 + 5), ("s/q", 42, 50),
+               ("b", 43, 10)]
 
 
 def write_model(S, m, seed):
@@ -108,9 +132,33 @@ def write_model(S, m, seed):
         os.remove(pb)
     solo = os.path.join(S, "solo")
     want_solo = [20000, 2 * P0 + 1][m.get("solo", 0)]
+    if m.get("solo_dir"):
+        # the "single-file root" is a directory now: solo/x carries the bytes
+        if os.path.isfile(solo):
+            os.remove(solo)
+        if not os.path.isdir(solo):
+            os.mkdir(solo)
+            with open(os.path.join(solo, "y"), "wb") as f:
+                f.write(world.content(seed, 31, 100))
+        solo = os.path.join(solo, "x")
+    elif os.path.isdir(solo):
+        shutil.rmtree(solo)
     if not os.path.exists(solo) or os.path.getsize(solo) != want_solo:
         with open(solo, "wb") as f:
             f.write(world.content(seed, 30, want_solo))
+    other = os.path.join(S, "other")
+    if not os.path.isdir(other):
+        os.mkdir(other)
+        for rel, cid, n in OTHER_FILES:
+            os.makedirs(os.path.dirname(os.path.join(other, rel)),
+                        exist_ok=True)
+            with open(os.path.join(other, rel), "wb") as f:
+                f.write(world.content(seed, cid, n))
+    pl = os.path.join(root, "d", "zz")
+    if m.get("link") and not os.path.lexists(pl):
+        os.symlink("gone", pl)          # dangling: top/d/gone never exists
+    elif not m.get("link") and os.path.lexists(pl):
+        os.remove(pl)
     pn = os.path.join(root, "n")
     if m["n"] and not os.path.exists(pn):
         with open(pn, "wb") as f:
@@ -126,6 +174,9 @@ def canon_sandbox(S):
         for n in sorted(fn):
             p = os.path.join(dp, n)
             rel = os.path.relpath(p, S)
+            if os.path.islink(p):
+                out.append((rel, -1, "link:" + os.readlink(p)))
+                continue
             h = hashlib.sha256()
             with open(p, "rb") as f:
                 while True:
@@ -164,7 +215,11 @@ def _scan(S):
             items = sorted((str(k).replace(S, "<SB>"),
                             repr(val).replace(S, "<SB>"))
                            for k, val in v.cache.items())
-            return "memo:" + repr(items)
+            # every other attribute of the memo object (e.g. `counter`) is
+            # process state as well
+            rest = sorted((k, repr(x)) for k, x in vars(v).items()
+                          if k not in ("cache", "func"))
+            return "memo:" + repr(items) + repr(rest)
         r = repr(v)
         if S:
             r = r.replace(S, "<SB>")
@@ -218,6 +273,98 @@ def strip_date(raw):
         return raw
 
 
+_KEPT = {}
+
+
+def root_of(op, S):
+    tail = op.split(":")[2:]
+    for name in ("solo", "other", "missing"):
+        if name in tail:
+            return os.path.join(S, name)
+    return os.path.join(S, "top")
+
+
+def creator_class(tf, k):
+    return {"1": tf.torrent.TorrentFile, "1a": tf.torrent.TorrentFile,
+            "2c": tf.torrent.TorrentFileV2, "3c": tf.torrent.TorrentFileHybrid,
+            "2": tf.torrent.TorrentAssembler,
+            "3": tf.torrent.TorrentAssembler}[k]
+
+
+def creator_extra(k):
+    return {"1a": {"align": True}, "2": {"meta_version": "2"},
+            "3": {"meta_version": "3"}}.get(k, {})
+
+
+def cfg_lines(kind, mpath):
+    lines = ["[config]", f"out = {mpath}", "piece-length = 14"]
+    if kind == "full":
+        lines += ["comment = from config", "source = cfg",
+                  "private = true", "meta-version = 3",
+                  "announce =", "    http://c/a", "    http://c/b"]
+    elif kind in ("alias", "alias+a"):
+        lines += ["comment = via alias keys",
+                  "tracker =", "    http://c/t1", "    http://c/t2",
+                  "web-seed =", "    http://c/w1", "    http://c/w2",
+                  "http-seed =", "    http://c/h1"]
+    elif kind == "both":
+        lines += ["announce =", "    http://c/a",
+                  "tracker =", "    http://c/t1"]
+    elif kind != "bare":
+        raise ValueError(kind)
+    return lines
+
+
+def cli_create_argv(kind, root, mpath):
+    if kind == "plain":
+        return ["create", root, "--prog", "0", "-o", mpath]
+    if kind == "lists":
+        return ["create", root, "--prog", "0", "-o", mpath,
+                "--tracker", "http://t/x", "http://t/y",
+                "--web-seed", "http://w/1", "http://w/2",
+                "--http-seed", "http://h/1", "--comment", "c",
+                "--source", "s", "--private", "--meta-version", "2"]
+    if kind == "short":
+        return ["create", "-a", "http://t/s", "-p", "-s", "src", "-c", "cm",
+                "--progress", "0", "--out", mpath, root]
+    raise ValueError(kind)
+
+
+FOREIGN = ("ann", "ann2", "none", "tiers", "ws")
+
+
+def write_foreign(S, kind):
+    """A metafile written by the reference encoder (never by torrentfile):
+    `ann` / `ann2` carry `announce` and no `announce-list`, `none` no tracker
+    at all, `tiers` announce + announce-list + url-list, `ws` (hybrid) nothing
+    but a string url-list."""
+    from mc.ref import model
+    path = os.path.join(S, f"f_{kind}.torrent")
+    if os.path.exists(path):
+        return path
+    data = world.content(0, 50 + FOREIGN.index(kind), P0 + 7)
+    name = f"f {kind}.bin"
+    if kind == "ws":
+        meta = model.ref_hybrid(name, {(): data}, P0, 16384)
+        meta[b"url-list"] = b"http://mirror.example/f ws.bin"
+    else:
+        meta = model.ref_v1(name, {(): data}, P0)
+    if kind == "ann":
+        meta[b"announce"] = b"http://solo.example/announce?key=a&b=c%20d"
+    elif kind == "ann2":
+        meta[b"announce"] = b"udp://other.example:1337/announce"
+        meta[b"comment"] = b"second single tracker"
+    elif kind == "tiers":
+        meta[b"announce"] = b"http://one.example/announce"
+        meta[b"announce-list"] = [[b"http://one.example/announce",
+                                   b"udp://two.example:6969/a b&c=d"],
+                                  [b"http://three.example/x"]]
+        meta[b"url-list"] = [b"http://seed.example/dir name/"]
+    with open(path, "wb") as f:
+        f.write(bencode.encode(meta))
+    return path
+
+
 def do_lib_op(op, S):
     from mc import tf
     root = os.path.join(S, "top")
@@ -253,24 +400,35 @@ def do_lib_op(op, S):
                 shutil.rmtree(wd, ignore_errors=True)
         if op.startswith("create:"):
             v = op.split(":")[1]
-            if op.endswith(":solo"):
-                root = os.path.join(S, "solo")
+            root = root_of(op, S)
             plen = 2 * P0 if op.endswith(":p32") else P0
             if v == "cfg":
                 # create through a configuration file: `full` names comment,
-                # source, private and trackers, `bare` nothing but the output
+                # source, private and trackers, `bare` nothing but the output;
+                # `alias` names its list options with the other spellings the
+                # program accepts (tracker / web-seed / http-seed), `both`
+                # carries announce and tracker, `alias+a` adds -a on the
+                # command line
                 kind = op.split(":")[2]
-                cfg = os.path.join(S, f"cfg_{kind}.ini")
-                lines = ["[config]", f"out = {mpath}", "piece-length = 14"]
-                if kind == "full":
-                    lines += ["comment = from config", "source = cfg",
-                              "private = true", "meta-version = 3",
-                              "announce =", "    http://c/a", "    http://c/b"]
+                cfg = os.path.join(S, f"cfg_{kind.replace('+', '_')}.ini")
                 with open(cfg, "w") as f:
-                    f.write("\n".join(lines) + "\n")
-                tf.cli.execute(["create", "--config", "--config-path", cfg,
-                                "--prog", "0", root])
-                os.remove(cfg)
+                    f.write("\n".join(cfg_lines(kind, mpath)) + "\n")
+                argv = ["create", "--config", "--config-path", cfg,
+                        "--prog", "0", root]
+                if kind == "alias+a":
+                    argv[1:1] = ["-a", "http://t/z"]
+                try:
+                    tf.cli.execute(argv)
+                finally:
+                    os.remove(cfg)
+                with open(mpath, "rb") as f:
+                    return ("metafile", strip_date(f.read()))
+            if v == "cli":
+                # plain command-line creates through torrentfile.cli.execute:
+                # `plain` gives no option beyond the output, `lists` gives
+                # every list-valued and every info option (long spellings,
+                # --tracker), `short` the short / alternative spellings
+                tf.cli.execute(cli_create_argv(op.split(":")[2], root, mpath))
                 with open(mpath, "rb") as f:
                     return ("metafile", strip_date(f.read()))
             if v == "listarg":
@@ -287,12 +445,9 @@ def do_lib_op(op, S):
                                        outfile=mpath, progress=0).write()
             elif v in ("2c", "3c", "1a"):
                 # the class creators used by library callers / interactive mode
-                cls = {"2c": tf.torrent.TorrentFileV2,
-                       "3c": tf.torrent.TorrentFileHybrid,
-                       "1a": tf.torrent.TorrentFile}[v]
-                extra = {"align": True} if v == "1a" else {}
-                cls(path=root, piece_length=plen, outfile=mpath, progress=0,
-                    **extra).write()
+                creator_class(tf, v)(path=root, piece_length=plen,
+                                      outfile=mpath, progress=0,
+                                      **creator_extra(v)).write()
             elif v in "23":
                 tf.torrent.TorrentAssembler(path=root, piece_length=plen,
                                             outfile=mpath, progress=0,
@@ -305,6 +460,44 @@ def do_lib_op(op, S):
                                 "--meta-version", "3"])
             with open(mpath, "rb") as f:
                 return ("metafile", strip_date(f.read()))
+        if op.startswith("keep:"):
+            # a caller that keeps its creator object: the first `keep` of a
+            # (creator, root, piece length) constructs the object and writes;
+            # every later one calls assemble() and write() on the SAME
+            # object.  A fresh process has no object, so the oracle is a new
+            # creator object on the filesystem state of the moment
+            k = op.split(":")[1]
+            plen = 2 * P0 if op.endswith(":p32") else P0
+            obj = _KEPT.get((S, op))
+            if obj is None:
+                obj = creator_class(tf, k)(
+                    path=root_of(op, S), piece_length=plen, outfile=mpath,
+                    progress=0, **creator_extra(k))
+                _KEPT[(S, op)] = obj
+            else:
+                obj.assemble()
+            obj.write()
+            with open(mpath, "rb") as f:
+                return ("metafile", strip_date(f.read()))
+        if op.startswith("edit:cli:"):
+            argv = {"lists": ["--tracker", "http://e/1", "http://e/2",
+                              "--web-seed", "http://ew/1", "--http-seed",
+                              "http://eh/1", "--source", "esrc", "--private"],
+                    "comment": ["--comment", "second"]}[op.split(":")[2]]
+            tf.cli.execute(["edit", mpath] + argv)
+            with open(mpath, "rb") as f:
+                return ("metafile", strip_date(f.read()))
+        if op.startswith("magnet:"):
+            # magnet:[cli:](own | f:<kind>): the own slot or a foreign
+            # metafile written by the reference encoder, library or CLI route
+            parts = op.split(":")[1:]
+            cli = parts[0] == "cli"
+            if cli:
+                parts = parts[1:]
+            target = mpath if parts[0] == "own" else write_foreign(S, parts[1])
+            if cli:
+                return ("magnet", tf.cli.execute(["magnet", target]))
+            return ("magnet", tf.commands.magnet(target))
         if op == "edit":
             tf.edit.edit_torrent(mpath, {"comment": "edited", "source": None,
                                          "private": None, "announce":
@@ -353,7 +546,7 @@ def handler(req):
         snap = canon = None
         if is_last:
             snap = S + ".before"
-            shutil.copytree(S, snap)
+            shutil.copytree(S, snap, symlinks=True)
             canon = canon_sandbox(S)
         obs = do_lib_op(op, S)
         if is_last:
@@ -406,23 +599,68 @@ class HistoryCheck:
             "plus every history of the shape create; X; change; [create;] X "
             "for X in recheck / rebuild / magnet / edit (depth 4-5), and "
             "creates at a second piece length (32 KiB)",
+            "pattern family `failed`: failing operations are ordinary members "
+            "of histories (observable = exception type, compared with the "
+            "fresh process like any other): a dangling symbolic link in top/d "
+            "(actions add:link / del:link) makes the content walk of every "
+            "create fail below its top level (recheck and rebuild run with "
+            "the link in place as well), a missing root or a missing "
+            "metafile makes an operation fail at the top; each failure is "
+            "followed by successful creates of the same root (link removed, "
+            "with two and with three entries) and of a second, never mutated "
+            "directory root `other` whose four entries are created in an "
+            "order that is neither sorted nor reverse-sorted",
+            "pattern family `cli`: creates through torrentfile.cli.execute "
+            "in ordered pairs (quick: first member sets options or is -q; "
+            "thorough: all pairs) and selected triples over {config file "
+            "full / bare / with the alias keys tracker, web-seed, http-seed / "
+            "with announce and tracker / alias keys plus -a on the command "
+            "line; command line without options / with every list-valued "
+            "option (--tracker, --web-seed, --http-seed) / short spellings; "
+            "-q}, so that a list-valued option given by flag or by either "
+            "config key in one operation is absent in the next; CLI edit with "
+            "and without list-valued options",
+            "pattern family `magnet`: five foreign metafile slots written by "
+            "the reference encoder (announce only x2, tracker-less, announce "
+            "+ announce-list + url-list, hybrid with a string url-list) next "
+            "to the own slot; magnet by library call and by CLI on every "
+            "ordered pair of slots (same route; mixed routes from the "
+            "announce-carrying slots), own slot before / after a foreign one",
+            "pattern family `keep`: the caller keeps its creator object (all "
+            "six creators, explicit piece length): construct + write, payload "
+            "change (add / delete / rewrite / grow / shrink, single-file "
+            "resize, single-file root replaced by a directory and back: "
+            "action morph:solo), then assemble() + write() on the SAME "
+            "object; the fresh-process oracle is a NEW creator object on the "
+            "changed payload.  Kept objects with an automatic piece length "
+            "are not enumerated (the piece length chosen at construction is "
+            "read as an argument of the object)",
+            "the quick BFS alphabet does not contain add:link / del:link / "
+            "morph:solo (pattern histories only); thorough adds BFS groups "
+            "below the prefixes add:link and morph:solo with these actions "
+            "enabled",
             "depth 3 (quick) / 5 (thorough); states deduplicated on "
             "(canonical sandbox, canonical process state) where the process "
             "state is an introspective scan of every module- and class-level "
-            "attribute of torrentfile.* (Memo cache contents included), "
+            "attribute of torrentfile.* (Memo cache contents and every other "
+            "attribute of the memo object included), "
             "sys.stdout/stderr types, root logger, TORRENTFILE_DEBUG",
             "each history is re-executed from the empty history in a fresh "
             "fork of a pristine process image; oracle = the same operation in "
             "another pristine fork on a copy of the same filesystem state; the "
             "first query of every operation kind per group is cross-validated "
-            "against a brand-new interpreter (subprocess)",
+            "against a brand-new interpreter (subprocess), including one "
+            "operation of each pattern family and one failing create",
             "the clock is owned (fixed) so that metafiles are comparable",
         ]
         self.rule = (
             "explicit-state BFS over operation histories; state = canonical "
             "(sandbox, process state); transition = executing one more "
             "operation of the real code at the end of a history; differential "
-            "oracle against a pristine process on the same filesystem state")
+            "oracle against a pristine process on the same filesystem state; "
+            "enumerated pattern families (failed operations, CLI / config "
+            "option spellings, several metafile slots, kept creator objects) "
+            "beyond the BFS depth, each history judged at its last operation")
 
     def worker_init(self):
         from mc import zygote
@@ -439,6 +677,10 @@ class HistoryCheck:
         for i in range(0, len(rh), 24):
             gs.append({"kind": "repeat", "histories": rh[i:i + 24],
                        "seed": seed})
+        for fam, hs in self.pattern_histories(tier).items():
+            for i in range(0, len(hs), 24):
+                gs.append({"kind": "repeat", "family": fam,
+                           "histories": hs[i:i + 24], "seed": seed})
         if tier == "quick":
             for f in firsts:
                 gs.append({"prefix": [f], "depth": depth, "seed": seed})
@@ -450,7 +692,165 @@ class HistoryCheck:
                         op for op in LIB_OPS
                         if op.startswith("create") or has_m]:
                     gs.append({"prefix": [f, s], "depth": depth, "seed": seed})
-        return gs
+            # the wide alphabet (dangling link under the root / root turning
+            # into a directory) below the two actions that only it has
+            for f in ("add:link", "morph:solo"):
+                m1 = fs_apply_model(m0, f)
+                for s in fs_enabled(m1, True) + [
+                        op for op in LIB_OPS if op.startswith("create")]:
+                    gs.append({"prefix": [f, s], "depth": depth, "seed": seed,
+                               "wide": True})
+        # scheduling only (the aggregate is order-independent): the first
+        # group (executed twice by the determinism guard) stays a small one,
+        # then the long BFS groups, the small pattern groups fill the tail
+        small = [g for g in gs if g.get("kind") == "repeat"]
+        return small[:1] + [g for g in gs if g.get("kind") != "repeat"] \
+            + small[1:]
+
+    def pattern_histories(self, tier):
+        """Families of histories outside the BFS alphabet (every history is
+        judged at its last operation; failing operations are ordinary members:
+        their observable is the exception type)."""
+        deep = tier != "quick"
+        fam = {}
+
+        # --- failed: an operation that FAILS below the top level of its
+        # directory walk (dangling link in top/d), then successful creates of
+        # the same root (link removed) and of another root
+        h = []
+        failing = ["create:1", "create:2", "create:3", "create:auto",
+                   "create:cliq"] + (["create:2c", "create:3c", "create:1a",
+                                      "create:cli:plain"] if deep else [])
+        after_same = ["create:1", "create:3", "create:auto"] + (
+            ["create:2", "create:1a", "create:cliq"] if deep else [])
+        after_other = ["create:1:other", "create:2:other", "create:1a:other"] \
+            + (["create:3:other", "create:auto:other"] if deep else [])
+        for f in failing:
+            h.append(["add:link", f])
+            for g in after_same:
+                h.append(["add:link", f, "del:link", g])
+            for g in after_other:
+                h.append(["add:link", f, g])
+                h.append(["add:link", f, "del:link", g])
+        for x in ("recheck", "rebuild"):
+            h.append(["create:1", "add:link", x, "del:link", x])
+            h.append(["create:1", "add:link", x, "del:link", "create:1"])
+            h.append(["create:1", "add:link", x, "create:1:other"])
+        # failures at the top level (no such root / no metafile yet)
+        for g in ("create:1", "create:1:other", "create:2"):
+            h.append(["create:1:missing", g])
+            h.append(["create:2:missing", g])
+        for x in ("magnet", "recheck", "edit", "rebuild"):
+            h.append([x])
+            h.append([x, "create:1", x])
+        # the failing operation itself after something else happened
+        for x in ("recheck", "rebuild", "create:1", "create:2", "keep:3c"):
+            h.append(["create:1", "add:link", x])
+        h.append(["create:1", "create:2:missing"])
+        h.append(["keep:1", "add:link", "keep:1", "del:link", "keep:1"])
+        h.append(["keep:3c", "add:link", "keep:3c", "del:link", "keep:3c"])
+        for f in failing:
+            # the same root with a third entry (its native listing order is
+            # unsorted on filesystems that enumerate oldest-first or
+            # newest-first alike)
+            h.append(["add:n", "add:link", f, "del:link", "create:1"])
+        if deep:
+            for f in failing:
+                for g in after_same + after_other:
+                    h.append(["add:link", f, f, "del:link", g])
+                    if g != "create:1":
+                        h.append(["add:n", "add:link", f, "del:link", g])
+        fam["failed"] = h
+
+        # --- cli: creates through torrentfile.cli.execute with list-valued
+        # options given by flag / by configuration file (both key spellings) in
+        # one operation and absent in the next
+        ops = ["create:cfg:full", "create:cfg:bare", "create:cfg:alias",
+               "create:cfg:both", "create:cfg:alias+a", "create:cli:plain",
+               "create:cli:lists", "create:cli:short", "create:cliq"]
+        setters = ["create:cfg:full", "create:cfg:alias", "create:cfg:both",
+                   "create:cfg:alias+a", "create:cli:lists",
+                   "create:cli:short"]
+        firsts = ops if deep else setters + ["create:cliq"]
+        h = [[a, b] for a in firsts for b in ops]
+        h += [[a, a] for a in ops if a not in firsts]
+        two = setters if deep else ["create:cfg:full", "create:cfg:alias",
+                                    "create:cfg:both", "create:cli:lists"]
+        for a in two:
+            for b in two:
+                if a != b or deep:
+                    for z in ("create:cli:plain", "create:cfg:bare"):
+                        h.append([a, b, z])
+        for z in ("create:cli:plain", "create:cfg:alias"):
+            h.append(["create:cfg:alias", "create:cfg:alias", z])
+            h.append(["create:cfg:alias", "create:1", z])
+        h.append(["create:1", "edit:cli:lists", "edit:cli:comment"])
+        h.append(["create:1", "edit:cli:lists", "create:1", "edit:cli:comment"])
+        h.append(["create:1", "edit:cli:lists", "create:cli:plain"])
+        h.append(["create:cli:lists", "create:1", "edit:cli:comment"])
+        h.append(["create:cfg:alias", "create:1", "edit:cli:comment"])
+        h.append(["create:1", "edit:cli:lists", "create:2", "edit:cli:lists"])
+        fam["cli"] = h
+
+        # --- magnet: several metafile slots (own slot + foreign metafiles
+        # from the reference encoder), library and CLI route, in every order
+        h = []
+        F = list(FOREIGN)
+        for a in F:
+            for b in F:
+                h.append([f"magnet:f:{a}", f"magnet:f:{b}"])
+                h.append([f"magnet:cli:f:{a}", f"magnet:cli:f:{b}"])
+                if deep or (a != b and a in ("ann", "tiers")):
+                    h.append([f"magnet:f:{a}", f"magnet:cli:f:{b}"])
+                    h.append([f"magnet:cli:f:{a}", f"magnet:f:{b}"])
+        for c in ("create:1", "create:3", "create:cfg:full") if deep else (
+                "create:1", "create:cfg:full"):
+            for a in F if deep else ("ann", "tiers", "none"):
+                h.append([c, f"magnet:f:{a}", "magnet:own"])
+                h.append([c, f"magnet:cli:f:{a}", "magnet:cli:own"])
+                h.append([c, "magnet:own", f"magnet:f:{a}"])
+        for a in ("ann", "tiers"):
+            for b in ("ann2", "none"):
+                for c in ("none", "ws", "ann"):
+                    h.append([f"magnet:f:{a}", f"magnet:f:{b}",
+                              f"magnet:f:{c}"])
+        fam["magnet"] = h
+
+        # --- keep: the caller keeps its creator object, the payload changes,
+        # assemble() and write() again on the same object
+        h = []
+        kinds = ["1", "1a", "2c", "3c", "2", "3"]
+        changes = ["add:n", "del:b", "rewrite:b", "grow:a"] + (
+            ["biggrow:a"] if deep else [])
+        for k in kinds:
+            a = f"keep:{k}"
+            h.append([a, a])
+            for f in changes:
+                h.append([a, f, a])
+            h.append([a, "add:n", a, "del:n", a])
+            h.append(["grow:a", a, "shrink:a", a])
+            so = f"keep:{k}:solo"
+            h.append([so, "resize:solo", so])
+            h.append(["resize:solo", so, "resize:solo", so])
+            h.append([so, "morph:solo", so])
+            h.append(["morph:solo", so, "morph:solo", so])
+            h.append(["morph:solo", so, "resize:solo", so])
+            # new objects on a root that changed its type
+            c = f"create:{k}:solo"
+            h.append([c, "morph:solo", c])
+            h.append(["morph:solo", c, "morph:solo", c])
+            # an object kept while another one works on the same root
+            h.append([a, "rewrite:b", f"create:{k}", a])
+            if deep:
+                for k2 in kinds:
+                    if k2 != k:
+                        h.append([a, "rewrite:b", f"keep:{k2}", "grow:a", a])
+        fam["keep"] = h
+        for k, hs in fam.items():
+            seen = set()
+            fam[k] = [x for x in hs
+                      if not (tuple(x) in seen or seen.add(tuple(x)))]
+        return fam
 
     def repeat_histories(self):
         """Depth-4/5 histories of the shape  create ; X ; change ; X  (and
@@ -540,7 +940,7 @@ class HistoryCheck:
                          "fresh": summarize(want)})
                     res.outcomes["differs:" + last["op"]] += 1
                 else:
-                    res.outcomes["same:" + last["op"].split(":")[0]] += 1
+                    res.outcomes[same_tag(last)] += 1
             shutil.rmtree(S, ignore_errors=True)
             shutil.rmtree(S + ".before", ignore_errors=True)
             return r
@@ -558,7 +958,7 @@ class HistoryCheck:
                     continue
                 seen.add(key)
                 if level < depth:
-                    ops = fs_enabled(r["model"]) + [
+                    ops = fs_enabled(r["model"], g.get("wide", False)) + [
                         op for op in LIB_OPS
                         if op.startswith("create") or r["has_m"]]
                     for op in ops:
@@ -605,10 +1005,11 @@ class HistoryCheck:
                          "fresh": summarize(memo[key])})
                     res.outcomes["differs:" + last["op"]] += 1
                 else:
-                    res.outcomes["same:" + last["op"].split(":")[0]] += 1
+                    res.outcomes[same_tag(last)] += 1
             shutil.rmtree(S, ignore_errors=True)
             shutil.rmtree(S + ".before", ignore_errors=True)
-        res.sample({"repeat_histories": g["histories"][:2]})
+        res.sample({"family": g.get("family", "repeat"),
+                    "repeat_histories": g["histories"][:2]})
         return res
 
     def worker_init_late(self):
@@ -626,7 +1027,7 @@ class HistoryCheck:
         last = r["last"]
         if last is None:
             return []
-        shutil.copytree(last["snap"], last["snap"] + ".sub")
+        shutil.copytree(last["snap"], last["snap"] + ".sub", symlinks=True)
         want = self.zyg.call({"kind": "single", "op": last["op"],
                               "sandbox": last["snap"]})
         sub = subprocess_oracle(last["op"], last["snap"] + ".sub")
@@ -649,14 +1050,20 @@ class HistoryCheck:
         base = world.fresh_dir("c9x_")
         n = 0
         try:
-            for op in LIB_OPS:
-                hist = ["create:3", "add:n", op]
+            extra = [["create:3", "add:n", "create:cli:plain"],
+                     ["create:3", "add:n", "magnet:cli:f:ann"],
+                     ["create:3", "add:n", "keep:3c:solo"],
+                     ["create:3", "add:n", "create:1:other"],
+                     ["create:3", "add:link", "create:1"]]
+            for hist in [["create:3", "add:n", op] for op in LIB_OPS] + extra:
+                op = hist[-1]
                 S = os.path.join(base, f"x{n}")
                 n += 1
                 r = z.call({"kind": "history", "ops": hist, "sandbox": S,
                             "seed": seed})
                 last = r["last"]
-                shutil.copytree(last["snap"], last["snap"] + ".sub")
+                shutil.copytree(last["snap"], last["snap"] + ".sub",
+                                symlinks=True)
                 a = z.call({"kind": "single", "op": op,
                             "sandbox": last["snap"]})
                 b = subprocess_oracle(op, last["snap"] + ".sub")
@@ -667,6 +1074,16 @@ class HistoryCheck:
                 total.extra["oracle_cross_validated_with_new_interpreter"] += 1
         finally:
             z.close()
+
+
+def same_tag(last):
+    """Outcome label of an agreeing observation; operations that fail (in the
+    history and in the fresh process alike) are counted apart, so that the
+    evidence shows that failing members of histories really occurred."""
+    kind = last["op"].split(":")[0]
+    if last["obs"][0] == "raised":
+        return f"same-raised:{kind}:{last['obs'][1]}"
+    return "same:" + kind
 
 
 def summarize(obs):
